@@ -2,11 +2,11 @@ SPECIFICATION Spec
 CONSTANTS
   ArgsOf <- MCArgs
   InitHeaps <- MCInit2
-  MaxDepth = 1
+  MaxDepth = 2
   Breaks <- BreaksQ
-  Degs <- DegsQ
+  Degs <- DegsT
   MaxNpts = 5
-  Acts = {"CvSplit"}
+  Acts = {"CvSplitTake", "CvJoin"}
   PtKinds = {"gen"}
   WtKinds = {"none", "gen"}
   ExtraNodes <- Extra0
@@ -17,7 +17,7 @@ CONSTANTS
   OtherMaxNpts = 4
 INVARIANT WellFormed
 PROPERTY FailedIsNoOp
-PROPERTY SplitRestricts
+PROPERTY JoinRestores
 ACTION_CONSTRAINT Log
 VIEW View
 CHECK_DEADLOCK FALSE
